@@ -190,6 +190,40 @@ pub fn run(ctx: &Ctx) -> i32 {
             conform(ctx, "opacity-pairs", &case, &f, &want);
         });
     }
+    // incompressible cels around the 32 KiB / 64 KiB marks, raw and compressed
+    if ctx.wants_family("medium-noise") {
+        let sides: [u16; 9] = [63, 64, 65, 90, 91, 100, 127, 128, 129];
+        let mut cases: Vec<(usize, u16, u8)> = Vec::new();
+        for fi in 0..3usize {
+            for s in sides {
+                for st in 0..4u8 {
+                    cases.push((fi, s, st));
+                }
+            }
+        }
+        ctx.family("medium-noise", cases.len() as u64, "square noise cels of side 63..129 (decoded sizes around 32 KiB and 64 KiB in every format; zlib streams longer than 32 KiB) in 3 pixel formats, stored raw / zlib level 0 / 1 / 9, on a 130x130 canvas at offset (1,1): cel and frame images compared with the model", true);
+        cases.par_iter().for_each(|(fi, side, st)| {
+            let case = || format!("fmt{} side={} storage={}", fi, side, ["raw", "zlib0", "zlib1", "zlib9"][*st as usize]);
+            if !ctx.wants("medium-noise", &case) {
+                return;
+            }
+            let fmt = [Fmt::Rgba, Fmt::Gray, Fmt::Indexed(0)][*fi].clone();
+            let mut f = gen::file(130, 130, &fmt, &[10]);
+            if *fi == 2 {
+                f.frames[0].push(new_palette(0, pal_entries(256, 3)));
+            }
+            f.frames[0].push(Body::Layer(Layer::image("l")));
+            let n = *side as usize * *side as usize * fmt.bpp();
+            let data = gen::noise(n, *side as u32 + *fi as u32);
+            f.frames[0].push(match st {
+                0 => raw_cel(0, 1, 1, 255, *side, *side, data),
+                1 => zcel(0, 1, 1, 255, *side, *side, data, 0),
+                2 => zcel(0, 1, 1, 255, *side, *side, data, 1),
+                _ => zcel(0, 1, 1, 255, *side, *side, data, 9),
+            });
+            conform(ctx, "medium-noise", &case, &f, &want);
+        });
+    }
     if ctx.wants_family("absent") {
         let cases: Vec<u32> = (0..64).collect();
         ctx.family("absent", 64 * 3, "2 frames x 3 layers: every subset of the 6 cells present (3 formats); absent cells must report empty, offset (0,0) and a transparent image", true);
